@@ -335,12 +335,18 @@ pub fn run(case: &Case) -> Vec<(String, String)> {
             }
         }
         Case::Indexed { ty, perm, fillers, lie } => {
-            let c14case = super::c14::Case { ty: *ty, n: 3, perm: perm.clone(), gaps: if *fillers { vec![2, 0, 4, 2] } else { vec![0; 4] }, fill_byte: 0 };
+            // lie 6: fillers behind the first and the last record, every entry's length stretched over the filler
+            // behind its record, so that the entries chain by their own lengths up to the end of the file
+            let gaps = if *lie == 6 { vec![0, 2, 0, 2] } else if *fillers { vec![2, 0, 4, 2] } else { vec![0; 4] };
+            let c14case = super::c14::Case { ty: *ty, n: 3, perm: perm.clone(), gaps, fill_byte: 0 };
             let (shp, mut shx, _) = super::c14::build(&c14case);
+            let offs: Vec<i64> = (0..3).map(|i| i32::from_be_bytes(shx[100 + 8 * i..104 + 8 * i].try_into().unwrap()) as i64 * 2).collect();
             for i in 0..3 {
                 let o = 100 + 8 * i + 4;
                 let orig = i32::from_be_bytes(shx[o..o + 4].try_into().unwrap());
+                let next = if i + 1 < 3 { offs[i + 1] } else { shp.len() as i64 };
                 let v = match lie {
+                    6 => ((next - offs[i] - 8) / 2) as i32,
                     0 => orig,
                     1 => 2,
                     2 => 0,
@@ -382,6 +388,45 @@ pub fn run(case: &Case) -> Vec<(String, String)> {
                         Some(x) => x.map(|s| vec![from_lib(&Shape::from(s))]).map_err(|e| err_kind(&e)),
                     }), unreachable!()),
                 ));
+            }
+            // the complete reader (non-consuming bulk reads): after a state-changing call, a generic and a typed
+            // bulk read on two readers brought into the same state
+            {
+                let dbf = Dev::quiet(vec![]);
+                {
+                    let mut tw = crate::table::table_writer(dbf.clone());
+                    for i in 0..3 {
+                        tw.write_record(&crate::table::good_row(i)).expect("row");
+                    }
+                }
+                let open_c = || -> Result<shapefile::Reader<Dev, Dev>, String> {
+                    let sr = open().map_err(|e| err_kind(&e))?;
+                    let dr = shapefile::dbase::Reader::new(Dev::quiet(dbf.data())).map_err(|e| format!("dbf: {}", e))?;
+                    Ok(shapefile::Reader::new(sr, dr))
+                };
+                for pre in 0..4u8 {
+                    let prepare = |r: &mut shapefile::Reader<Dev, Dev>| match pre {
+                        0 => {}
+                        1 => {
+                            let _ = r.read();
+                        }
+                        2 => {
+                            let _ = r.iter_shapes_and_records().next();
+                        }
+                        _ => {
+                            let _ = r.seek(1);
+                        }
+                    };
+                    let generic = conv(open_c().and_then(|mut r| {
+                        prepare(&mut r);
+                        r.read().map(|v| v.into_iter().map(|p| p.0).collect()).map_err(|e| err_kind(&e))
+                    }));
+                    let typed: R = with_ty!(*ty, S => open_c().and_then(|mut r| {
+                        prepare(&mut r);
+                        r.read_as::<S, shapefile::dbase::Record>().map(|v| v.into_iter().map(|p| from_lib(&Shape::from(p.0))).collect()).map_err(|e| err_kind(&e))
+                    }), unreachable!());
+                    routes.push((format!("complete Reader: {} then read / read_as", ["fresh", "after read()", "after one item", "after seek(1)"][pre as usize]), generic, typed));
+                }
             }
             // by path
             {
@@ -604,6 +649,9 @@ pub fn check(tier: Tier) -> i32 {
                 for lie in 0..6u8 {
                     cases.push(Case::Indexed { ty, perm: perm.clone(), fillers, lie });
                 }
+                if fillers && perm == vec![0usize, 1, 2] {
+                    cases.push(Case::Indexed { ty, perm: perm.clone(), fillers, lie: 6 });
+                }
             }
         }
     }
@@ -655,7 +703,7 @@ pub fn check(tier: Tier) -> i32 {
             tier,
             level: "model_checking",
             engine: "E2 complete type matrix on the real reader / conversions; files by the library writer (13 types) and by RefCodec (null and mixed-type files)",
-            rule: "all 13 x 14 ordered (requested S, actual T) pairs x files of 1-2 (thorough 3) records over 3 structures, plus files whose last record has any other of the 14 types; every shape value of the C01 quick structure set for the identity / conversion clauses against all 13 target types; bulk conversion with the wrong element at every position of vectors of length 1-3 for all 13 x 13 pairs; hand-encoded 3-record files over {S, another type, null} for every S through ShapeReader::new / with_shx / with_shx with every index entry doubled / the complete Reader; 3-record files of every type located by a hand-made index (4 physical orders x fillers or not x the entries' length fields as they are, 2, 0, +1, -1, i32::MAX): typed against generic-then-converted for read, iteration, random access at every position (in memory) and read_shapes / from_path (on disk); non-trivial = every case",
+            rule: "all 13 x 14 ordered (requested S, actual T) pairs x files of 1-2 (thorough 3) records over 3 structures, plus files whose last record has any other of the 14 types; every shape value of the C01 quick structure set for the identity / conversion clauses against all 13 target types; bulk conversion with the wrong element at every position of vectors of length 1-3 for all 13 x 13 pairs; hand-encoded 3-record files over {S, another type, null} for every S through ShapeReader::new / with_shx / with_shx with every index entry doubled / the complete Reader; 3-record files of every type located by a hand-made index (4 physical orders x fillers or not x the entries' length fields as they are, 2, 0, +1, -1, i32::MAX, or stretched over the filler behind each record so that they chain): typed against generic-then-converted for read, iteration, random access at every position, and the complete Reader's bulk reads from four states (in memory) and read_shapes / from_path (on disk); non-trivial = every case",
             bounds: json!({"matrix": "13x14 complete", "cases": cases.len()}),
             exhaustive: true,
             assumptions: vec!["type names in errors are compared through their integer codes; Display names are C19's".into()],
